@@ -430,6 +430,24 @@ theorem derived_refs_always_rebound (ops : List ROp) (q : Path) (n : String) (r 
     Expected (RState.run {} ops) q n r :=
   (rinv_run ops {} rinv_empty).rebound q n r hr hd
 
+/-- **the hypothesis concerns nested spaces after base changes only**: a space is marked only by
+`add_bases` / `remove_bases` - in a history without them no space is ever marked - and only a space that
+lies strictly below another one: a top-level space is never marked, so for top-level spaces
+`derived_refs_always_rebound` holds without hypothesis -/
+theorem marked_only_below_base_changes (ops : List ROp) :
+    ((∀ op ∈ ops, op.isRebase = false) → ∀ q, (RState.run {} ops).dirty q = false) ∧
+    (∀ q, (RState.run {} ops).dirty q = true → 2 ≤ q.length) :=
+  ⟨fun h => no_rebase_no_dirty ops {} h (fun _ => rfl),
+   dirty_depth_run ops {} rinv_empty (fun q hq => by cases hq)⟩
+
+/-- for top-level spaces: after ANY history, no hypothesis -/
+theorem top_level_derived_refs_always_rebound (ops : List ROp) (s : String) (n : String) (r : DRef)
+    (hr : (RState.run {} ops).ref [s] n = some ⟨false, r⟩) : Expected (RState.run {} ops) [s] n r := by
+  apply derived_refs_always_rebound ops [s] n r hr
+  cases hd : (RState.run {} ops).dirty [s] with
+  | false => rfl
+  | true => have := (marked_only_below_base_changes ops).2 [s] hd; simp at this
+
 /-- the reachable states are well-formed: every space has a linearisation, bases exist, the tree of spaces
 is closed under parents, names are clean -/
 theorem reachable_shape (ops : List ROp) : RShape (RState.run {} ops) := (rinv_run ops {} rinv_empty).toRShape
